@@ -526,4 +526,133 @@ theorem pytree_reject_memo (sk : Skel) (l : LType) (s : Option String) (x : Obj)
   rw [h]
   trivial
 
+/-! ### array leaves -/
+
+theorem toArr_isInst (cls : String) (x : Obj) : (x.toArr cls).isInst = Obj.isArrOf cls x := by
+  cases x <;> rfl
+
+/-- in flatten mode the array check is the class test and touches nothing -/
+theorem checkL_arr_flatten (sk : Skel) (cls : String) (a : Ann) (ha : a.transparent = false)
+    (x : Obj) (st : CState) (hf : st.flatten = true) (hn : st.noCtx = false) :
+    checkL sk (.arr cls a) x st = (st, if Obj.isArrOf cls x then Verdict.T else Verdict.F) := by
+  obtain ⟨m, tp, fl, nc⟩ := st
+  dsimp only at hf hn
+  subst hf hn
+  unfold checkL
+  simp only [Bool.false_eq_true, if_false]
+  unfold instancecheck
+  rw [toArr_isInst]
+  cases Obj.isArrOf cls x <;> simp [ha]
+
+/-- outside flatten mode, in an open context, the array check is `instancecheck` on the memo -/
+theorem checkL_arr_check (sk : Skel) (cls : String) (a : Ann) (x : Obj) (m : Memo) (tp : TreePath)
+    (fl : Bool) :
+    checkL sk (.arr cls a) x ⟨m, tp, fl, false⟩ =
+      (⟨(instancecheck sk.arrayCatch fl tp a (x.toArr cls) m).2, tp, fl, false⟩,
+        (instancecheck sk.arrayCatch fl tp a (x.toArr cls) m).1) := by
+  unfold checkL
+  simp only [Bool.false_eq_true, if_false]
+
+theorem leafLoop_arr (sk : Skel) (cls : String) (a : Ann) : ∀ (ls : List Obj) (i : Nat) (m : Memo),
+    (leafLoop sk (checkL sk (.arr cls a)) none ls i ⟨m, none, false, false⟩).2 =
+        (checkSeq sk.arrayCatch none (ls.map fun o => (a, o.toArr cls)) m).1 ∧
+      (leafLoop sk (checkL sk (.arr cls a)) none ls i ⟨m, none, false, false⟩).1.memo =
+        (checkSeq sk.arrayCatch none (ls.map fun o => (a, o.toArr cls)) m).2
+  | [], i, m => by rw [leafLoop]; exact ⟨rfl, rfl⟩
+  | y :: ys, i, m => by
+    rw [leafLoop]
+    dsimp only
+    rw [checkL_arr_check sk cls a y m none false, List.map_cons]
+    cases hi : instancecheck sk.arrayCatch false none a (y.toArr cls) m with
+    | mk v m' =>
+      cases v with
+      | T =>
+        rw [checkSeq_cons_T _ _ _ _ _ _ _ hi]
+        dsimp only
+        rw [ite_self]
+        exact leafLoop_arr sk cls a ys (i + 1) m'
+      | F =>
+        rw [checkSeq_cons_stop _ _ _ _ _ _ (by rw [hi]; simp), hi]
+        exact ⟨rfl, rfl⟩
+      | ANN =>
+        rw [checkSeq_cons_stop _ _ _ _ _ _ (by rw [hi]; simp), hi]
+        exact ⟨rfl, rfl⟩
+      | EXC e =>
+        rw [checkSeq_cons_stop _ _ _ _ _ _ (by rw [hi]; simp), hi]
+        exact ⟨rfl, rfl⟩
+
+theorem pytreeCore_arr (sk : Skel) (cls : String) (a : Ann) (ha : a.transparent = false) (x : Obj)
+    (hx : x.noFault = true) (m : Memo) :
+    ∃ st4 : CState,
+      pytreeCore sk (checkL sk (.arr cls a)) false none x ⟨m, none, false, false⟩ =
+        (st4, (checkSeq sk.arrayCatch none
+          ((leavesWith (Obj.isArrOf cls) x).map fun o => (a, o.toArr cls)) m).1) ∧
+      st4.memo = (checkSeq sk.arrayCatch none
+          ((leavesWith (Obj.isArrOf cls) x).map fun o => (a, o.toArr cls)) m).2 := by
+  have hspec : LeafSpec (fun s => s.flatten = true ∧ s.noCtx = false) Eq
+      (fun y s => if (!false) = true then checkL sk (.arr cls a) y s else (s, Verdict.F))
+      (Obj.isArrOf cls) :=
+    ⟨fun _ => rfl, fun _ _ _ h1 h2 => h1.trans h2, fun y s _ hI => by
+      simp only [Bool.not_false, if_true]
+      rw [checkL_arr_flatten sk cls a ha y s hI.1 hI.2]
+      exact ⟨rfl, rfl, hI⟩⟩
+  obtain ⟨st1, d, hfl, hR, _⟩ := flat_spec _ _ _ (!false) _ hspec x ⟨m, none, true, false⟩ hx
+    ⟨rfl, rfl⟩
+  subst hR
+  unfold pytreeCore
+  dsimp only
+  rw [hfl]
+  simp only [Bool.false_eq_true, if_false]
+  rw [ite_self]
+  generalize hL : leafLoop sk _ none _ 0 _ = L
+  have hl : L.2 = (checkSeq sk.arrayCatch none
+          ((leavesWith (Obj.isArrOf cls) x).map fun o => (a, o.toArr cls)) m).1 ∧
+      L.1.memo = (checkSeq sk.arrayCatch none
+          ((leavesWith (Obj.isArrOf cls) x).map fun o => (a, o.toArr cls)) m).2 := by
+    rw [← hL]; exact leafLoop_arr sk cls a _ 0 m
+  obtain ⟨st4, v⟩ := L
+  obtain ⟨hv, hm⟩ := hl
+  dsimp only at hv hm ⊢
+  rw [← hv]
+  have hc : (if (sk.treepathGuarded && (none : Option String).isNone) = true then st4
+      else { st4 with tp := none }).memo = st4.memo := by split <;> rfl
+  cases v with
+  | T => exact ⟨_, rfl, hc.trans hm⟩
+  | F => exact ⟨_, rfl, hc.trans hm⟩
+  | ANN =>
+    refine ⟨_, rfl, ?_⟩
+    split
+    · exact hc.trans hm
+    · exact hm
+  | EXC e =>
+    refine ⟨_, rfl, ?_⟩
+    split
+    · exact hc.trans hm
+    · exact hm
+
+theorem pytree_arrays_seq (sk : Skel) (cls : String) (a : Ann) (ha : a.transparent = false)
+    (x : Obj) (hx : x.noFault = true) (hn : x ≠ .none) (st : CState)
+    (hst : st.flatten = false ∧ st.tp = none ∧ st.noCtx = false) :
+    let leaves := (leavesWith (Obj.isArrOf cls) x).map fun o => (a, o.toArr cls)
+    (checkL sk (.pytree (.arr cls a) none) x st).2 = (checkSeq sk.arrayCatch none leaves st.memo).1 ∧
+    ((checkSeq sk.arrayCatch none leaves st.memo).1 = .T →
+      (checkL sk (.pytree (.arr cls a) none) x st).1.memo =
+        (checkSeq sk.arrayCatch none leaves st.memo).2) := by
+  intro leaves
+  obtain ⟨m, tp, fl, nc⟩ := st
+  obtain ⟨h1, h2, h3⟩ := hst
+  dsimp only at h1 h2 h3
+  subst h1 h2 h3
+  rw [checkL_pytree_eq]
+  dsimp only
+  rw [pytreeInstancecheck_eq _ _ _ _ _ _ hn]
+  simp only [Bool.false_eq_true, if_false]
+  obtain ⟨st4, hcore, hm⟩ := pytreeCore_arr sk cls a ha x hx m
+  rw [hcore]
+  refine ⟨pytreeFinish_snd _ _ _, fun hT => ?_⟩
+  change (checkSeq sk.arrayCatch none leaves m).1 = .T at hT
+  change (pytreeFinish sk _ (st4, (checkSeq sk.arrayCatch none leaves m).1)).1.memo = _
+  rw [hT]
+  exact hm
+
 end JV
